@@ -606,6 +606,149 @@ rec_int!(rec_u64, u64);
 rec_int!(rec_i32, i32);
 rec_int!(rec_i64, i64);
 
+// A user strategy that itself uses the crate while it is being called: its interp_into first runs a
+// batch (n-d and dynamic queries) on another interpolator, then records and fills its own target.
+// The outer batch must be unaffected: same query values in order, targets of the right shape, every
+// row of the result holding its own query value.
+mod nesting {
+    use super::*;
+    pub type Inner = Interp1D<ndarray::OwnedRepr<f64>, ndarray::OwnedRepr<f64>, IxDyn, ndarray_interp::interp1d::Linear>;
+    pub static INNER: std::sync::OnceLock<Inner> = std::sync::OnceLock::new();
+    pub fn inner() -> &'static Inner {
+        INNER.get_or_init(|| Interp1DBuilder::new(ArrayD::from_shape_fn(IxDyn(&[4, 3]), |ix| (ix[0] * 3 + ix[1]) as f64)).build().expect("inner interpolator"))
+    }
+    pub fn disturb() {
+        let ip = inner();
+        let q2 = ndarray::arr2(&[[0.5, 1.5, 2.5], [3.0, 0.0, 1.25]]);
+        let _ = ip.interp_array(&q2).expect("inner 2-d batch");
+        let qd = ArrayD::from_shape_vec(IxDyn(&[2, 1, 2]), vec![0.25, 2.75, 1.0, 2.0]).unwrap();
+        let mut buf = ArrayD::from_elem(IxDyn(&[2, 1, 2, 3]), f64::NAN);
+        ip.interp_array_into(&qd, buf.view_mut()).expect("inner dynamic batch");
+        let q0 = ndarray::arr0(1.5);
+        let _ = ip.interp_array(&q0).expect("inner 0-d batch");
+    }
+    #[derive(Debug)]
+    pub struct Nest {
+        pub log: Log,
+    }
+    impl<Sd, Sx, D> Interp1DStrategyBuilder<Sd, Sx, D> for Nest
+    where
+        Sd: Data<Elem = f64>,
+        Sx: Data<Elem = f64>,
+        D: Dimension + RemoveAxis,
+    {
+        const MINIMUM_DATA_LENGHT: usize = 2;
+        type FinishedStrat = Nest;
+        fn build<Sx2>(self, _x: &ArrayBase<Sx2, Ix1>, _data: &ArrayBase<Sd, D>) -> Result<Nest, BuilderError>
+        where
+            Sx2: Data<Elem = f64>,
+        {
+            Ok(self)
+        }
+    }
+    impl<Sd, Sx, D> Interp1DStrategy<Sd, Sx, D> for Nest
+    where
+        Sd: Data<Elem = f64>,
+        Sx: Data<Elem = f64>,
+        D: Dimension + RemoveAxis,
+    {
+        fn interp_into(&self, _ip: &Interp1D<Sd, Sx, D, Self>, mut target: ArrayViewMut<f64, D::Smaller>, x: f64) -> Result<(), InterpolateError> {
+            disturb();
+            self.log.lock().unwrap().push(Event::Call { x: bits(x), y: 0, target_shape: target.shape().to_vec() });
+            target.fill(x);
+            Ok(())
+        }
+    }
+    impl<Sd, Sx, Sy, D> Interp2DStrategyBuilder<Sd, Sx, Sy, D> for Nest
+    where
+        Sd: Data<Elem = f64>,
+        Sx: Data<Elem = f64>,
+        Sy: Data<Elem = f64>,
+        D: Dimension + RemoveAxis,
+        D::Smaller: RemoveAxis,
+    {
+        const MINIMUM_DATA_LENGHT: usize = 2;
+        type FinishedStrat = Nest;
+        fn build(self, _x: &ArrayBase<Sx, Ix1>, _y: &ArrayBase<Sy, Ix1>, _data: &ArrayBase<Sd, D>) -> Result<Nest, BuilderError> {
+            Ok(self)
+        }
+    }
+    impl<Sd, Sx, Sy, D> Interp2DStrategy<Sd, Sx, Sy, D> for Nest
+    where
+        Sd: Data<Elem = f64>,
+        Sx: Data<Elem = f64>,
+        Sy: Data<Elem = f64>,
+        D: Dimension + RemoveAxis,
+        D::Smaller: RemoveAxis,
+    {
+        fn interp_into(&self, _ip: &Interp2D<Sd, Sx, Sy, D, Self>, mut target: ArrayViewMut<'_, f64, <D::Smaller as Dimension>::Smaller>, x: f64, y: f64) -> Result<(), InterpolateError> {
+            disturb();
+            self.log.lock().unwrap().push(Event::Call { x: bits(x), y: bits(y), target_shape: target.shape().to_vec() });
+            target.fill(x + y);
+            Ok(())
+        }
+    }
+
+    pub fn run(out: &mut JobOut) {
+        for data_shape in [vec![3usize, 2], vec![3, 2, 3], vec![4, 2, 1, 2]] {
+            for qshape in [vec![2usize, 2], vec![3], vec![2, 1, 2], vec![], vec![1, 2, 1, 2]] {
+                let m: usize = qshape.iter().product();
+                let qv: Vec<f64> = (0..m).map(|i| [0.5, 1.25, 0.0, 2.0, 1.0, 0.75, 1.5, 0.25][i % 8]).collect();
+                let q = ArrayD::from_shape_vec(IxDyn(&qshape), qv.clone()).unwrap();
+                let data = ArrayD::from_elem(IxDyn(&data_shape), 1.0);
+                for two_d in [false, true] {
+                    if two_d && data_shape.len() < 2 {
+                        continue;
+                    }
+                    let k = if two_d { 2 } else { 1 };
+                    let log: Log = Arc::new(Mutex::new(vec![]));
+                    let key = format!("nested:{}:data{data_shape:?}:query{qshape:?}", if two_d { "2d" } else { "1d" }).replace(' ', "");
+                    let res: Result<Result<ArrayD<f64>, InterpolateError>, String> = if two_d {
+                        let ip = Interp2DBuilder::new(data.clone()).strategy(Nest { log: log.clone() }).build().expect("valid");
+                        catch(|| ip.interp_array(&q, &q))
+                    } else {
+                        let ip = Interp1DBuilder::new(data.clone()).strategy(Nest { log: log.clone() }).build().expect("valid");
+                        catch(|| ip.interp_array(&q))
+                    };
+                    out.evals += 1;
+                    out.nontrivial += 1;
+                    out.transitions += m as u64;
+                    let ev = log.lock().unwrap().clone();
+                    let want_target: Vec<usize> = data_shape[k..].to_vec();
+                    let lane: usize = want_target.iter().product();
+                    let mut bad: Option<String> = None;
+                    let calls_ok = ev.len() == m && ev.iter().zip(&qv).all(|(e, &x)| matches!(e, Event::Call { x: ex, target_shape, .. } if *ex == bits(x) && *target_shape == want_target));
+                    if !calls_ok {
+                        bad = Some(format!("the strategy saw {:?}", ev.iter().take(6).collect::<Vec<_>>()));
+                    }
+                    match &res {
+                        Ok(Ok(a)) => {
+                            let mut ws = qshape.clone();
+                            ws.extend_from_slice(&want_target);
+                            if a.shape() != &ws[..] {
+                                bad = Some(format!("result shape {:?}, expected {ws:?}", a.shape()));
+                            } else {
+                                for (e, &v) in a.iter().enumerate() {
+                                    let want = qv[e / lane.max(1)] * if two_d { 2.0 } else { 1.0 };
+                                    if v.to_bits() != want.to_bits() {
+                                        bad = Some(format!("element {e} of the result is {v}, the strategy wrote {want} for that query"));
+                                        break;
+                                    }
+                                }
+                            }
+                        }
+                        other => bad = Some(format!("the outer batch failed: {:?}", other.as_ref().map(|r| r.as_ref().map(|_| ()).map_err(|e| e.to_string())))),
+                    }
+                    out.outcome(format!("nested:{}", if bad.is_none() { "unaffected" } else { "disturbed" }));
+                    if let Some(b) = bad {
+                        out.violate(key, format!("a strategy that runs batches on another interpolator inside its interp_into: data {data_shape:?}, query {qshape:?}: {b}"), Json::Null);
+                    }
+                }
+            }
+        }
+    }
+}
+
 // ------------------------------------------------------------------------------------------
 // part 2: what does interp_into of the strategy see? (every entry point, every fault index)
 
@@ -966,6 +1109,7 @@ fn body(ctx: &Ctx) -> (Summary, Meta) {
             Part::Access => part_accessors(&mut out),
             Part::F32Long => part_f32_long_default_axis(&mut out),
             Part::IntTypes => {
+                nesting::run(&mut out);
                 rec_u8::run(&mut out);
                 rec_u32::run(&mut out);
                 rec_u64::run(&mut out);
@@ -978,7 +1122,7 @@ fn body(ctx: &Ctx) -> (Summary, Meta) {
     });
     let _ = (Ix0::default(), ctx.quick());
     let meta = Meta {
-        rule: "recording strategy builders with declared minimum 0..4 for Interp1D and Interp2D: (1) on the decision-table inputs (data ranks static/dynamic incl. rank 0, lengths 0..min+2, axis default / n-1 / n / n+1 with tie, swap, NaN at every position; 2-D x-factors x y-factors) the strategy's build may only be entered when axes are strictly increasing, have the data's length and the length reaches the declared minimum, and its error must reach the caller unchanged; (2) for 18 static/dynamic instantiations x data shapes x query shapes (ranks 0..3, empty; dynamic data with 11 .. 20 trailing axes) x {interp, interp_into, interp_array, interp_array_into, interp_scalar} the strategy must see exactly the query values (bit patterns incl. NaN, -0, inf, 1e300) in logical order with a target of shape data.shape[k..]; a failure is injected at every call index of every batch and must stop the batch and reach the caller verbatim; (3) index_point(i) for every i and is_in_range on the range-end alphabet; (4) the default index axis of 2^24+2 f32 values (not strictly increasing after the cast) must not reach the strategy builder; (5) u8 / u32 / u64 / i32 / i64 axes with every order pattern (tie / swap at every position, decreasing, MIN..MAX, MAX..MIN) as x of Interp1D and as x or y of Interp2D: the builder only sees strictly increasing axes, build() returns Ok iff the axis is, and never panics. Query batches contain consecutive equal values (incl. NaN, NaN and 0.0, -0.0). Non-trivial = a case in which the strategy is entered or an accessor is compared.".into(),
+        rule: "recording strategy builders with declared minimum 0..4 for Interp1D and Interp2D: (1) on the decision-table inputs (data ranks static/dynamic incl. rank 0, lengths 0..min+2, axis default / n-1 / n / n+1 with tie, swap, NaN at every position; 2-D x-factors x y-factors) the strategy's build may only be entered when axes are strictly increasing, have the data's length and the length reaches the declared minimum, and its error must reach the caller unchanged; (2) for 18 static/dynamic instantiations x data shapes x query shapes (ranks 0..3, empty; dynamic data with 11 .. 20 trailing axes) x {interp, interp_into, interp_array, interp_array_into, interp_scalar} the strategy must see exactly the query values (bit patterns incl. NaN, -0, inf, 1e300) in logical order with a target of shape data.shape[k..]; a failure is injected at every call index of every batch and must stop the batch and reach the caller verbatim; (3) index_point(i) for every i and is_in_range on the range-end alphabet; (4) the default index axis of 2^24+2 f32 values (not strictly increasing after the cast) must not reach the strategy builder; (6) a strategy whose interp_into itself runs n-d, dynamic and 0-d batches on another interpolator: the outer batch (1-D and 2-D, query ranks 0..4) still hands it every query in order with the right target and returns what it wrote; (5) u8 / u32 / u64 / i32 / i64 axes with every order pattern (tie / swap at every position, decreasing, MIN..MAX, MAX..MIN) as x of Interp1D and as x or y of Interp2D: the builder only sees strictly increasing axes, build() returns Ok iff the axis is, and never panics. Query batches contain consecutive equal values (incl. NaN, NaN and 0.0, -0.0). Non-trivial = a case in which the strategy is entered or an accessor is compared.".into(),
         bounds: format!("9 parts (5 declared minima + calls + accessors + long f32 default axis + integer types); tier {}", ctx.tier.name()),
         assumptions: vec!["queries are handed to the strategy in the logical order of the query array".into()],
         extra: vec![],
